@@ -4,7 +4,8 @@ import LeptosModel.Model.Wire
 
 The modelled program (what harness/hx-c10 builds from the real crates):
 
-* `k` source signals `ArcRwSignal<u32>`;
+* `k` source signals `ArcRwSignal<u32>`; with `viaMemo` also a memo `sm` of all of them, which is then the
+  only thing the fetcher reads (sources of the derived = `{sm}`, as for a `Resource`);
 * one `ArcAsyncDerived` / `AsyncDerived` `d` whose fetcher reads every source (tracked), hands a
   `oneshot::Receiver` to the harness and awaits it; the harness resolves the `f`-th started fetch with
   `fetchFn (inputs captured by that fetch)` (`complete f`);
@@ -19,8 +20,11 @@ The modelled program (what harness/hx-c10 builds from the real crates):
 | `pollD` / `.start`        | first poll of the spawned task: `already_dirty` ⇒ `initial_fut.take()` (fetch 0 is dropped) |
 | `dIter`, `dLoop`          | one iteration / the whole of `while rx.next().await.is_some() { if update_if_necessary || first_run { .. } }`; `Receiver::poll_next` (channel.rs) = `waker.register; set.swap(false)` |
 | `startFetch`              | `fut = initial_fut.take().unwrap_or_else(|| new ScopedFuture(fun()))` (the fetcher reads the sources here); `loading = true`; `version += 1`; reach `fut.await` |
-| `dUpdateOwn`              | `ArcAsyncDerivedInner::update_if_necessary` (inner.rs) called by the task: `Dirty ⇒ Clean, true`; sources are signals ⇒ `false` |
-| `dAsSource`               | the same function called by a *subscriber* on its source `d` (effect check phase): it also consumes `Dirty` (ghost `stolen`) |
+| `dNeedsRerun`             | `ArcAsyncDerivedInner::needs_rerun` (inner.rs; since "fix: a subscriber's check must not consume an async derived's Dirty state") called by the task only: `Dirty ⇒ Clean, true`; else `any` over the sources (signals: `false`; source memo: `smUpdate`) |
+| `dAsSource`               | `ReactiveNode::update_if_necessary` of the derived = the answer to a *subscriber* that has `d` among its sources (effect check phase): `false`, nothing touched |
+| `dropInitial`             | `if update_if_necessary { initial_fut.take(); }` (since "fix: async derived must not reuse its initial future when a memo source changed before the first poll") |
+| `smMarkDirty`, `smUpdate`, `dMarkCheck`, `inputsNow` | the source memo `sm = Memo(all sources)` of configurations with `viaMemo` (the fetcher reads `sm.get()` instead of the signals): `MemoInner::mark_dirty` (`Dirty`; subscriber `d` gets `mark_check` = notify only), `MemoInner::update_if_necessary` under observer `d` |
+| `…V`, `runOld1`, `runOld2`| the same chain with either repair switched off (the code as it was): regression witnesses only |
 | `applyResult`             | `fut.await` returned: version check, `set_inner_value` = store + `notify_subs` |
 | `notifySubs`              | `ArcAsyncDerived::notify_subs`: `loading = false`; `state ← Notifying`; every subscriber `mark_dirty`; drain `wakers`; `state ← prev` |
 | `dMarkDirty`              | `ReactiveNode::mark_dirty` for `RwLock<ArcAsyncDerivedInner>`: unless `Notifying`: `state = Dirty; notifier.notify()` |
@@ -42,15 +46,19 @@ after the previous one returned or, for fetch 0, was dropped), so only the last 
 entry; waking only sets a flag, so the order is irrelevant). `latest_version == this_version` is kept
 (`version`, `fetchVersion`) although it can never fail: only the task itself increments `version`.
 
-Ghost state (never read by the algorithm): `stolen`, `manualLive`, `lastManual`, `notifs`, `panicked`.
+The source memo has only the states `Dirty`/`Clean` (`smDirty`): its sources are signals, which mark it
+`Dirty` directly, so `Check` is unreachable.
+
+Ghost state (never read by the algorithm): `stolen` (only ever set by the pre-repair chain),
+`manualLive`, `lastManual`, `notifs`, `panicked`.
 Loops carry fuel; running out of fuel yields (the task stays woken).  For the derived's task that never
 happens: after one iteration that goes round again the channel flag is clear, so the next one suspends
 (`dLoop_eq` in Proofs/Async.lean).  The effect's loop goes round at most three times (a memo that changes
 during the check phase re-sets the channel flag once); its invariant is proved for every fuel.
 
 Not modelled: `Suspense` bookkeeping (`suspenses`, `SuspenseContext` — no context in scope in the
-harness), `AsyncTransition` (`ready_tx`: no transition running), `owner.paused()`, sources of the derived
-other than signals (the `Resource` construction over a memo source), several threads (C19).
+harness), `AsyncTransition` (`ready_tx`: no transition running), `owner.paused()`, the untracked
+`Resource` construction (`new_with_manual_dependencies`), several threads (C19).
 -/
 namespace Leptos.Async
 
@@ -86,6 +94,8 @@ structure Cfg where
   srcs : List Val := [0]
   init : Option Val := none
   eff : EffKind := .none
+  /-- the fetcher reads the sources through one memo `sm = Memo(all sources)` instead of directly -/
+  viaMemo : Bool := false
   deriving Repr, DecidableEq, Inhabited
 
 /-- an awaiter task: `spawn_local(async move { let v = d.await; record(v) })` -/
@@ -114,6 +124,10 @@ structure State where
   nf : Nat := 1
   curInputs : List Val := []
   curStatus : FStatus := .pending
+  -- source memo `sm` (only used when `viaMemo`): `Dirty` or `Clean`, cached value
+  viaMemo : Bool := false
+  smDirty : Bool := false
+  smVal : List Val := []
   -- memo `m`
   mstate : MState := .dirty
   mval : Option Val := none
@@ -166,7 +180,7 @@ def hasEffect (k : EffKind) : Bool := match k with | .none => false | _ => true
 def hasMemo (k : EffKind) : Bool := match k with | .dm => true | .md => true | _ => false
 
 def init (c : Cfg) : State :=
-  { eff := c.eff, src := c.srcs, value := c.init, curInputs := c.srcs,
+  { eff := c.eff, src := c.srcs, value := c.init, curInputs := c.srcs, viaMemo := c.viaMemo, smVal := c.srcs,
     eDirty := hasEffect c.eff, eChan := hasEffect c.eff, eWoken := hasEffect c.eff }
 
 /-! ## channels and marks -/
@@ -176,6 +190,16 @@ def dNotify (s : State) : State :=
 
 def dMarkDirty (s : State) : State :=
   if s.dstate = .notifying then s else dNotify { s with dstate := .dirty }
+
+/-- `mark_check` of the derived (a memo source is dirty): notify only, the state stays as it is -/
+def dMarkCheck (s : State) : State :=
+  if s.dstate = .notifying then s else dNotify s
+
+/-- `MemoInner::mark_dirty` of the source memo: `Dirty`, then its subscriber (the derived) `mark_check` -/
+def smMarkDirty (s : State) : State := dMarkCheck { s with smDirty := true }
+
+/-- what the fetcher would read now -/
+def inputsNow (s : State) : List Val := if s.viaMemo then s.smVal else s.src
 
 def eNotify (s : State) : State :=
   if s.eReg then { s with eChan := true, eReg := false, eWoken := true } else { s with eChan := true }
@@ -191,7 +215,7 @@ def mMarkDirty (s : State) : State :=
 def setSrc (s : State) (i : Nat) (v : Val) : State :=
   if i < s.src.length then
     let s := { s with src := setAt s.src i v }
-    let s := dMarkDirty s
+    let s := if s.viaMemo then smMarkDirty s else dMarkDirty s
     if s.mRan then mMarkDirty s else s
   else s
 
@@ -214,28 +238,41 @@ def applyResult (s : State) : State :=
     notifySubs { s with value := some (fetchFn s.curInputs), manualLive := false }
   else s
 
-/-- `fut = initial_fut.take().unwrap_or_else(new future)`; `loading = true`; `version += 1`; reach `fut.await` -/
+/-- `MemoInner::update_if_necessary` of the source memo called with the derived as the observer (by the
+derived's task or by the fetcher's `sm.get()`): recompute if `Dirty`; the derived, being the current
+observer, is not marked.  The flag says whether the value changed. -/
+def smUpdate (s : State) : State × Bool :=
+  if s.smDirty then ({ s with smVal := s.src, smDirty := false }, decide (s.smVal ≠ s.src)) else (s, false)
+
+/-- `fut = initial_fut.take().unwrap_or_else(new future)` (a new future reads the sources now);
+`loading = true`; `version += 1`; reach `fut.await` -/
 def startFetch (s : State) : State :=
   let s := if s.initialFut then { s with initialFut := false }
-           else { s with nf := s.nf + 1, curInputs := s.src, curStatus := .pending }
+           else
+             let s := (smUpdate s).1
+             { s with nf := s.nf + 1, curInputs := inputsNow s, curStatus := .pending }
   let s := { s with firstRun := false, loading := true, version := s.version + 1 }
   { s with fetchVersion := s.version, pc := .fetching }
 
-/-- the task's own `update_if_necessary` -/
-def dUpdateOwn (s : State) : State := if s.dstate = .dirty then { s with dstate := .clean } else s
+/-- `ArcAsyncDerivedInner::needs_rerun`, the task's own question "do I have to run again?":
+`Dirty ⇒ Clean, true`; else any source changed (signals: no; the source memo: recompute) -/
+def dNeedsRerun (s : State) : State × Bool :=
+  if s.dstate = .dirty then ({ s with dstate := .clean }, true) else smUpdate s
+
+/-- `if update_if_necessary { initial_fut.take(); }`: the initial future read stale values -/
+def dropInitial (s : State) : State :=
+  if s.initialFut then { s with initialFut := false, curStatus := .dropped } else s
 
 /-- one iteration of `while rx.next().await.is_some() { .. }`, entered with `pc = waiting`;
 the flag says whether the loop goes round again within the same poll -/
 def dIter (s : State) : State × Bool :=
   let s := { s with reg := true }
   if s.chan = false then (s, false) else
-  let s := { s with chan := false }
-  let need := decide (s.dstate = .dirty)
-  let s := dUpdateOwn s
-  if need || s.firstRun then
-    let s := startFetch s
+  let r := dNeedsRerun { s with chan := false }
+  if r.2 || r.1.firstRun then
+    let s := startFetch (if r.2 then dropInitial r.1 else r.1)
     if s.curStatus = .ready then (applyResult s, true) else (s, false)
-  else (s, true)
+  else (r.1, true)
 
 def dLoop : Nat → State → State
   | 0, s => { s with dWoken := true }
@@ -266,9 +303,9 @@ def memoUpdate (inCheck : Bool) (s : State) : State × Bool :=
     let s := { s with mval := some new, mstate := .clean, mRan := true }
     (if changed && inCheck && s.eSubM then eMarkDirty s else s, changed)
 
-/-- `d.update_if_necessary()` called by a subscriber that has `d` among its sources -/
-def dAsSource (s : State) : State × Bool :=
-  if s.dstate = .dirty then ({ s with dstate := .clean, stolen := true }, true) else (s, false)
+/-- `d.update_if_necessary()` asked by a subscriber that has `d` among its sources (the effect's check
+phase): `false`, nothing touched — every change of `d`'s value is announced by `notify_subs` -/
+def dAsSource (s : State) : State × Bool := (s, false)
 
 def effSources (k : EffKind) : List Src :=
   match k with
@@ -390,5 +427,84 @@ def oracle (s : State) : Option String :=
   else if !awsResumed s then some "awaiter-parked"
   else if hasEffect s.eff && lastSeen s ≠ some s.value then some "subscriber-stale"
   else none
+
+/-! ## the code before the repairs (regression witnesses only; `f1`/`f2` = repair 1/2 applied)
+
+* repair 1 (F-C10-1): before it, `update_if_necessary` asked by a subscriber was the task's own function:
+  it consumed `Dirty` (`stolen`), or walked the derived's sources without the derived as observer (a
+  changed source memo then marked the derived dirty) and answered whether one had changed;
+* repair 2 (F-C10-2): before it, the initial future was only dropped when `already_dirty`. -/
+
+def dAsSourceOld (s : State) : State × Bool :=
+  if s.dstate = .dirty then ({ s with dstate := .clean, stolen := true }, true)
+  else
+    let r := smUpdate s
+    (if r.2 then dMarkDirty r.1 else r.1, r.2)
+
+def effAnyV (f1 : Bool) : List Src → State → State × Bool
+  | [], s => (s, false)
+  | x :: rest, s =>
+    let r := match x with
+      | .d => if f1 then dAsSource s else dAsSourceOld s
+      | .m => memoUpdate true s
+    if r.2 then (r.1, true) else effAnyV f1 rest r.1
+
+def effUpdateV (f1 : Bool) (s : State) : State × Bool :=
+  if s.eDirty then ({ s with eDirty := false }, true)
+  else
+    let r := effAnyV f1 (if s.eFirst then [] else effSources s.eff) s
+    ({ r.1 with eDirty := false }, r.2 || r.1.eDirty)
+
+def eIterV (f1 : Bool) (s : State) : State × Bool :=
+  let s := { s with eReg := true }
+  if s.eChan = false then (s, false) else
+  let s := { s with eChan := false }
+  let r := effUpdateV f1 s
+  if r.2 || r.1.eFirst then (runEffect r.1, true) else (r.1, true)
+
+def eLoopV (f1 : Bool) : Nat → State → State
+  | 0, s => { s with eWoken := true }
+  | n + 1, s => if (eIterV f1 s).2 then eLoopV f1 n (eIterV f1 s).1 else (eIterV f1 s).1
+
+def dIterV (f2 : Bool) (s : State) : State × Bool :=
+  let s := { s with reg := true }
+  if s.chan = false then (s, false) else
+  let r := dNeedsRerun { s with chan := false }
+  if r.2 || r.1.firstRun then
+    let s := startFetch (if r.2 && f2 then dropInitial r.1 else r.1)
+    if s.curStatus = .ready then (applyResult s, true) else (s, false)
+  else (r.1, true)
+
+def dLoopV (f2 : Bool) : Nat → State → State
+  | 0, s => { s with dWoken := true }
+  | n + 1, s => if (dIterV f2 s).2 then dLoopV f2 n (dIterV f2 s).1 else (dIterV f2 s).1
+
+def pollDV (f2 : Bool) (s : State) : State :=
+  let s := { s with dWoken := false }
+  match s.pc with
+  | .start =>
+    let s := if s.dstate = .dirty then { s with initialFut := false, curStatus := .dropped } else s
+    dLoopV f2 3 { s with pc := .waiting }
+  | .waiting => dLoopV f2 3 s
+  | .fetching => if s.curStatus = .ready then dLoopV f2 3 (applyResult s) else s
+
+def pollNthV (f1 f2 : Bool) (s : State) (j : Nat) : State :=
+  let r := readyList s
+  match r[j % r.length]? with
+  | some .d => pollDV f2 s
+  | some .e => eLoopV f1 4 { s with eWoken := false }
+  | some (.a i) => pollA s i
+  | none => s
+
+def stepV (f1 f2 : Bool) (s : State) : Event → State
+  | .poll j => pollNthV f1 f2 s j
+  | e => step s e
+
+def runV (f1 f2 : Bool) (c : Cfg) (es : List Event) : State := es.foldl (stepV f1 f2) (init c)
+
+/-- the code before repair 1 (F-C10-1) -/
+def runOld1 : Cfg → List Event → State := runV false true
+/-- the code before repair 2 (F-C10-2) -/
+def runOld2 : Cfg → List Event → State := runV true false
 
 end Leptos.Async
